@@ -75,6 +75,18 @@ H3Error H3_EXPORT(cellToVertex)(H3Index cell, int vertexNum, H3Index *out) {
 void harness(void) {
     in_x = vp_u64("in_x"); in_canon = vp_u64("in_canon"); in_err = vp_int("in_err");
     __CPROVER_assume(in_err >= 0 && in_err <= 15);
+    // contract of the stubbed cellToVertex (proved by glue_cellToVertex + CENTREMIN): a centre child of resolution >= 1
+    // owns all its corners, so for it cellToVertex(owner, n) reproduces (owner, n) for every in-range n and fails otherwise.
+    // (A shortcut in isValidVertex that relies on this fact is therefore accepted; one that misapplies it is not.)
+    {
+        uint64_t ow = (in_x & ~(UINT64_C(15) << 59) & ~(UINT64_C(7) << 56)) | (UINT64_C(1) << 59);
+        int r = (int)((ow >> 52) & 15), num = (int)((in_x >> 56) & 7);
+        if (spec_valid_cell(ow) && r >= 1 && ((ow >> (3 * (15 - r))) & 7) == 0) {
+            int nv = spec_is_pentagon(ow) ? 5 : 6;
+            if (num < nv) __CPROVER_assume(in_err == 0 && in_canon == (ow & ~(UINT64_C(15) << 59) | (UINT64_C(4) << 59) | ((uint64_t)num << 56)));
+            else __CPROVER_assume(in_err != 0);
+        }
+    }
     VP_EXCLUDE();
     int got = H3_EXPORT(isValidVertex)(in_x);
     uint64_t owner = (in_x & ~(UINT64_C(15) << 59) & ~(UINT64_C(7) << 56)) | (UINT64_C(1) << 59);
